@@ -12,6 +12,10 @@ def main():
     ap.add_argument('--replay', default=None)
     a = ap.parse_args()
     try:
+        if os.environ.get('VERIF_COV'):       # development aid (tools/cov.py), never set by a registered command
+            sys.path.insert(0, os.path.join(os.path.dirname(os.path.dirname(os.path.abspath(__file__))), 'tools'))
+            import cov
+            cov.maybe_install()
         import usim
         repo = os.path.realpath(os.environ.get('USIM_REPO', '/repo'))
         if not os.path.realpath(usim.__file__).startswith(repo + os.sep):
